@@ -33,7 +33,7 @@ func runC04OpeningSeat(c *Ctx, ea *engineAnchors, eg *EventGraph) {
 	isRes := func(v *Val, fn *ssa.Function) bool { return v != nil && strings.HasPrefix(v.String(), fnKey(fn)+"(") }
 	emitsStarted := func(ps *PathSum) int {
 		for i, e := range ps.Events {
-			if e.Kind == "call" && e.Fn == eg.Emit && len(e.Args) > 1 && eg.eventName(e.Args[1]) == "GameEvent_RoundStarted" {
+			if nm, ok := eg.emitName(e); ok && nm == "GameEvent_RoundStarted" {
 				return i
 			}
 		}
